@@ -171,3 +171,28 @@ R.contract(
     modifies=["self.*", "self.genotype.*", "self.genotype.random.*"],
     props=["C18", "C01"],
 )
+
+# ---- dynamic SGE: refinement draws read genes through the decider --------------------------------------
+R.cls("DeciderSource", bases=["RandomSource"], fields={"decider": "DynamicSGEDecider"}, file=DSGE)
+R.contract(
+    "DeciderSource.randint",
+    file=DSGE,
+    overrides="RandomSource.randint",
+    params=dict(self="DeciderSource", min="int", max="int"),
+    returns="int",
+    requires={"ordered": "min <= max"},
+    ensures={"in_range": "min <= result and result <= max"},
+    modifies=["self.decider.*", "self.decider.genotype.*", "self.decider.genotype.random.*"],
+    props=["C18", "C07"],
+)
+R.contract(
+    "DeciderSource.random_float",
+    file=DSGE,
+    overrides="RandomSource.random_float",
+    params=dict(self="DeciderSource", min="float", max="float"),
+    returns="float",
+    requires={"ordered": "min <= max"},
+    ensures={"in_range": "min <= result and result <= max"},
+    modifies=["self.decider.*", "self.decider.genotype.*", "self.decider.genotype.random.*"],
+    props=["C18", "C07"],
+)
